@@ -2,6 +2,7 @@
 # tools/seed_tests.sh <seeded dir>... : run the baseline test suite on a scratch worktree with each seeded patch applied;
 # writes <dir>/tests.json.  Never touches /repo itself.
 for D in "$@"; do
+  D=$(realpath $D)
   name=$(basename $D); WT=/tmp/seedtests_$name
   git -C /repo worktree add -q --detach $WT HEAD || continue
   if git -C $WT apply $D/patch.diff; then
